@@ -91,9 +91,18 @@ func (r *Report) Undecide(anchor, why string) {
 }
 
 // Floor records UNDECIDED if fewer than min instances of something were found.
-func (r *Report) Floor(what string, got, min int) bool {
+// Floor is the vacuity guard of a rule: confirmed is the number of instances
+// counted on the reviewed tree. Merging duplicated code legitimately lowers
+// such a count (three copies of a block become one helper), so the guard trips
+// only when fewer than half of the confirmed instances (at least one) are left
+// — the situation in which the rule has most likely stopped matching.
+func (r *Report) Floor(what string, got, confirmed int) bool {
+	min := (confirmed + 1) / 2
+	if min < 1 {
+		min = 1
+	}
 	if got < min {
-		r.Undecide(what, fmt.Sprintf("found %d instances, expected at least %d (rule would pass vacuously)", got, min))
+		r.Undecide(what, fmt.Sprintf("found %d instances, expected at least %d (%d on the reviewed tree; the rule would pass vacuously)", got, min, confirmed))
 		return false
 	}
 	return true
